@@ -6,6 +6,18 @@ PROPS = [json.loads(l)['id'] for l in open(os.path.join(ROOT, 'properties.jsonl'
 
 TECH = 'TLA+ specification; TLC bounded model check of the group model + TLC trace validation of recorded executions of the real code'
 CLAIMED = {
+ 'C11': dict(text='E1: TLC explores the bounded history model (24-frame alphabet over every supported format incl. "no valid value" variants, 2 aircraft, clock steps around the pairing window, -R on/off; depth 3 quick / 4 thorough) and checks that the step rules keep every displayed parameter inside the reference fold of the input history written from the text of C11 (InvFold) and that a step touches one row only. E2-E4: every transition of that model is replayed through the real reader (prefix-tree walk with save/restore, option sets {none,-U} x {-R}) and TLC judges every parameter of the row after every step, plus re-fed frames and random long histories for 1..4 aircraft.',
+             note='frames whose single-frame decoding is a listed known finding (Gillham codes) are not in the alphabets; surface squitters and DF18 content are unconstrained; the model explores register-coherent Comm-B outcomes only', ref='5 C11'),
+ 'C12': dict(text='E1: bounded expiry model (3 aircraft, frames fed in batches of 1/10/11, delete_after 2 s (thorough also 1 and 5), clock steps D-1/D/D+1, each clock step starting a new reader run): InvExpiry = present while heard, stamp = last heard, a stale row survives at most 12 further accepted frames of a run. E2-E4: every maximal path replayed as multi-line reader runs with stamp shifting, -U on/off, plus random schedules over all formats with delete_after in {1,5,60,600,(86400)}; TLC judges key set and stamps after every run.',
+             note='elapsed time is simulated by shifting the public stamp fields; each check first verifies this against a real 1.2 s sleep and stops with a tool error if they disagree; the 12-frame bound is counted within one reader run', ref='5 C12'),
+ 'C13': dict(text='stream pairs (valid stream / same stream with junk lines inserted at every or random positions) run as single multi-line reader runs in two tables; TLC verifies that the accepted-frame subsequences coincide and that the tables are then equal up to stamps and both runs completed.',
+             note='junk = empty, NUL, 0x80-0xFF, truncated UTF-8, CR, text, truncated / over-long frames, corrupted squitters, 66 KB lines; acceptance of a non-UTF-8 line containing a full frame is left open', ref='5 C13'),
+ 'C16': dict(text='E1: InvCount on the history model under -f (none, 17, 4+5). Conformance: per-line judgement that a frame of an unlisted format leaves the table untouched; the real CLI with --update=-1 -c on mixed streams under -f subsets, TLC recomputing the expected "DFn:count" line and the aircraft set of the last refresh from the input lines.',
+             note='frames of formats outside the nine supported ones are kept out of the streams (their address notion is not fixed by any property)', ref='5 C16'),
+ 'C17': dict(text='exhaustive: a row is created for every one of the 2^24 addresses and the run-length encoding of its country code is judged by TLC against the Annex 10 allocation blocks of spec/Country.tla (184 certain blocks, 6 uncertain ones that constrain nothing).',
+             note='allocation table written from memory of Annex 10 (no copy offline); its internal consistency (disjoint, prefix aligned) is ASSUMEd; the RLE transform is trusted harness code', ref='5 C17'),
+ 'C19': dict(text='paired executions: the same history applied to two tables whose option sets differ in one named option; TLC compares the tables after every line (all fields but stamps for -i -o -c -u -M -D, all but distance for -O, the nine listed parameters for -U on valid-value DF4/5/11/17 histories with clock steps).',
+             note='-l and a second observer need separate processes (observer is process-global): covered by CLI-level comparison where built; the specification itself never reads -U, so neutrality is by construction at model level and the weight is on the paired traces', ref='5 C19'),
  'C08': dict(text='TLC carries, per aircraft, the latest even and odd airborne-position frames with their receive-time intervals and decides for every position frame whether a position must be decoded (pair < 10 s apart, same NL zone, |lat| < 87: exact integer-lattice global CPR, compared within 2 micro-degrees), kept, or is unconstrained (ambiguous clock, zero CPR field seen); distance judged for pole / same-meridian / opposite-meridian observers. Positions stratified over every NL zone, zone boundaries, equator, antimeridian; delays around 10 s by stamp shifting; -U on/off.',
              note='NL thresholds generated from the closed-form formula (tools/gen_tables.py), cross-checked against the published table by ASSUMEs; general-geometry distance only checked for presence; elapsed time simulated by shifting the public stamp fields', ref='5 C08'),
  'C10': dict(text='per-event TLC validation of every Comm-B derived field: a change requires gate (CA>=4 recorded or -R), advertisement (a BDS 1,7 report seen, or -R), liberal validity of the register and a value within <1 of the Doc 9871 decoding; a strictly valid, plausible, advertised register with no earlier-precedence match must be decoded. MB contents from physical values over full ranges and both signs, plausibility boundaries, cleared status bits, set reserved bits, explicit registers, random; 7 capability states x 9 advert states x 4 option sets.',
